@@ -617,7 +617,52 @@ def run (ctx):
            "%s subscribes to the table it did not just create: each time it runs (a controller connection is attached again) another listener is added - every flow that expires or is deleted with the send-flow-removed flag is announced "
            "once per attachment (and not at all before the first one)" % f_.qual, (swmod, cl_), 'D5')
   # ---- mechanisms this property shares with others: their checks' rules about these functions are obligations here too
+  _full_scan(ctx, repo, ft, ftmod)
   ctx.include('C03', ['matches_with_wildcards', 'is_exact', 'effective_priority'], 'non-strict commands select entries by match subsumption')
+
+def _full_scan (ctx, repo, ft, ftmod):
+  """selection by predicate examines every entry: the table is ordered by *effective* priority (exact-match entries first, whatever
+  their priority field says), so a scan that stops on the entries' priority field skips entries it should have examined"""
+  TBL = '_table'
+  n = 0
+  for f in ft.methods.values():
+    aliases = set(['self.' + TBL])
+    for t, v, s_, k in q.stores_in(f.node):
+      if isinstance(t, ast.Name) and v is not None and norm(v) in aliases: aliases.add(t.id)
+    scans = []
+    for x in ast.walk(f.node):
+      if isinstance(x, (ast.ListComp, ast.GeneratorExp, ast.SetComp)):
+        for gen in x.generators: scans.append((gen.iter, x, gen.ifs))
+      elif isinstance(x, ast.For): scans.append((x.iter, x, None))
+    # names bound to a cut of the table
+    cuts = {}
+    for t, v, s_, k in q.stores_in(f.node):
+      if isinstance(t, ast.Name) and isinstance(v, ast.Call) and call_name(v) in ('takewhile', 'islice', 'dropwhile') and any(norm(a) in aliases for a in v.args): cuts[t.id] = v
+    for it, node, ifs in scans:
+      src = it
+      if isinstance(src, ast.Name) and src.id in cuts: src = cuts[src.id]
+      whole = norm(src) in aliases or (isinstance(src, ast.Call) and call_name(src) in ('list', 'tuple', 'reversed', 'iter', 'enumerate') and src.args and norm(src.args[0]) in aliases)
+      cut = isinstance(src, ast.Call) and call_name(src) in ('takewhile', 'islice', 'dropwhile') and any(norm(a) in aliases for a in src.args)
+      sl = isinstance(src, ast.Subscript) and norm(src.value) in aliases and isinstance(src.slice, ast.Slice)
+      selects = any(isinstance(c, ast.Call) and call_name(c) in ('is_matched_by', 'entry_match') for c in ast.walk(node)) or \
+                (ifs is not None and any(isinstance(c, ast.Call) for i_ in ifs for c in ast.walk(i_)))
+      if not (whole or cut or sl) or not selects: continue
+      n += 1
+      if whole:
+        brk = isinstance(node, ast.For) and any(isinstance(b, ast.Break) for b in ast.walk(node))
+        if not brk: ctx.ok('R-EFFECT', f, "selection by predicate examines every entry of the table", "iterates `%s`" % norm(it), (ftmod, node), 'D3')
+        else: ctx.undecided('R-EFFECT', f, "selection by predicate examines every entry of the table", "the loop can end early (break)", (ftmod, node), 'D3')
+        continue
+      pred = src.args[0] if cut and src.args else None
+      by_eff = pred is not None and any(isinstance(a, ast.Attribute) and a.attr == 'effective_priority' for a in ast.walk(pred))
+      by_prio = pred is not None and any(isinstance(a, ast.Attribute) and a.attr == 'priority' for a in ast.walk(pred))
+      if cut and by_prio and not by_eff:
+        ctx.bad('R-EFFECT', f, "selection by predicate examines every entry of the table",
+                "the scan is cut short by `%s` on the entries' priority field, but the table is ordered by effective priority: an exact-match entry with a low priority field sits "
+                "first and hides every entry behind it - a strict DELETE / replace-on-ADD then misses its target (duplicate entries, no flow-removed)" % norm(src)[:90], (ftmod, node), 'D3')
+      else:
+        ctx.undecided('R-EFFECT', f, "selection by predicate examines every entry of the table", "scans `%s`, not the whole table" % norm(src)[:60], (ftmod, node), 'D3')
+  ctx.floor('table scans that select by predicate', n, 1)
 
 def _in_loop_before (g, d, rn):
   return rn in g.reachable(d)
